@@ -35,7 +35,7 @@ CONSTANTS Families,      \* message kinds enumerated by this run
           FullValues,    \* TRUE : every optional field ranges over unset + its whole alphabet, independently
                          \* FALSE: set/unset lattice; the alphabet element is picked by the case's `var`
           FullFrame,     \* kinds enumerated with the full lattice of frame options; the others with a pairwise-covering subset
-          VarSet,        \* variants enumerated ({1, 2}: both elements of the mandatory fields' alphabets)
+          VarSet,        \* variants enumerated: 1, 2 = first / second element of every alphabet, 3 = the edge values
           Small          \* TRUE : EXECUTE value lists and BATCH shapes restricted to two each (quick tier)
 
 Kinds == {"STARTUP", "OPTIONS", "AUTH_RESPONSE", "CREDENTIALS", "QUERY", "PREPARE", "EXECUTE", "BATCH",
@@ -48,12 +48,12 @@ Opcode(k) == CASE k = "STARTUP" -> 1 [] k = "CREDENTIALS" -> 4 [] k = "OPTIONS" 
 -----------------------------------------------------------------------------
 \* Value alphabets (2-3 elements each)
 A_query   == << <<113>>, <<115, 195, 169, 108, 32, 226, 130, 172>> >>       \* "q", "sél €" (2- and 3-byte UTF-8)
-A_cl      == <<1, 4>>                                                        \* ONE, QUORUM
+A_cl      == <<1, 4, 0>>                                                     \* ONE, QUORUM, ANY (numeric 0)
 A_serial  == <<8, 9>>                                                        \* SERIAL, LOCAL_SERIAL
 A_page    == <<1, 5000>>
-A_pstate  == << <<1>>, <<0, 255>> >>
-A_ts      == << <<0, 0, 0, 1>>, <<5, 44849, 32768, 1>> >>                    \* 1 ; 0x0005AF3180000001 (needs the high limb)
-A_ks      == << <<107, 115>>, <<75, 83, 50>> >>                              \* "ks", "KS2"
+A_pstate  == << <<1>>, <<0, 255>>, <<>> >>                                   \* ... and a zero-length one
+A_ts      == << <<0, 0, 0, 1>>, <<5, 44849, 32768, 1>>, <<0, 0, 0, 0>> >>    \* 1 ; 0x0005AF3180000001 (needs the high limb) ; 0
+A_ks      == << <<107, 115>>, <<75, 83, 50>>, <<>> >>                        \* "ks", "KS2", "" (a [string] may be empty)
 A_cont    == << [unit |-> "ROWS",  max_pages |-> 0, pps |-> 0, queue |-> 4],
                 [unit |-> "BYTES", max_pages |-> 3, pps |-> 7, queue |-> 2] >>
 A_payload == << << <<<<107>>, V(<<1, 2>>)>> >>,                              \* {"k": 0x0102}
@@ -67,13 +67,19 @@ A_values  == << <<>>,
                 << V(<<97>>), Null, V(<<>>), Unset, V(<<0, 255>>) >> >>
 A_token   == << <<>>, <<0, 117, 0, 112, 255>> >>
 
-Idx  == IF FullValues THEN 0..2 ELSE 0..1
+\* Variant 3 is the EDGE variant: every value that is "set" although it is zero / empty (timestamp 0, consistency ANY = 0,
+\* empty keyspace string, zero-length paging state) - a presence flag must follow "is set", not "is non-zero".
+\* Not in the alphabets, on purpose: page size 0 (documented as "no paging"), serial consistency 0 (only SERIAL and
+\* LOCAL_SERIAL are legal there).
+At(A, v) == A[IF v <= Len(A) THEN v ELSE 1]
+Ix(A)    == IF FullValues THEN 0..Len(A) ELSE 0..1
+Idx      == Ix(A_serial)
 Vars == VarSet
-Pick(A, i, var) == IF i = 0 THEN None ELSE Some(A[IF FullValues THEN i ELSE var])
+Pick(A, i, var) == IF i = 0 THEN None ELSE Some(IF FullValues THEN A[i] ELSE At(A, var))
 
 \* ---- frame options: tracing, custom payload, compression, beta flag, stream id
 FrameIdx(k) == IF k \in FullFrame
-            THEN {<<t, p, cz, b>> : t \in BOOLEAN, p \in Idx, cz \in BOOLEAN, b \in BOOLEAN}
+            THEN {<<t, p, cz, b>> : t \in BOOLEAN, p \in Ix(A_payload), cz \in BOOLEAN, b \in BOOLEAN}
             ELSE {<<FALSE, 0, FALSE, FALSE>>, <<TRUE, 1, FALSE, FALSE>>, <<FALSE, 0, TRUE, TRUE>>,
                   <<TRUE, 0, TRUE, FALSE>>, <<FALSE, 1, FALSE, TRUE>>, <<TRUE, 1, TRUE, TRUE>>}
 FrameOpt(pv, var, x) ==
@@ -83,20 +89,21 @@ FrameOpt(pv, var, x) ==
 \* ---- message options per kind
 \* QUERY and EXECUTE share <query_parameters>; one record shape for both
 Params(var, values, skip, is, ip, ips, it, ik, ic) ==
-    [cl |-> A_cl[var], values |-> values, skip |-> skip,
+    [cl |-> At(A_cl, var), values |-> values, skip |-> skip,
      serial |-> Pick(A_serial, is, var), page |-> Pick(A_page, ip, var), pstate |-> Pick(A_pstate, ips, var),
      ts |-> Pick(A_ts, it, var), ks |-> Pick(A_ks, ik, var), cont |-> Pick(A_cont, ic, var)]
 
 QueryCases(var) ==       \* the session layer never attaches values to a QUERY (parameters are interpolated)
-    {[query |-> A_query[var]] @@ Params(var, None, FALSE, is, ip, ips, it, ik, ic) :
-        is \in Idx, ip \in Idx, ips \in Idx, it \in Idx, ik \in Idx, ic \in Idx}
+    {[query |-> At(A_query, var)] @@ Params(var, None, FALSE, is, ip, ips, it, ik, ic) :
+        is \in Ix(A_serial), ip \in Ix(A_page), ips \in Ix(A_pstate), it \in Ix(A_ts), ik \in Ix(A_ks), ic \in Ix(A_cont)}
 
 ExecuteCases(pv, var) == \* ExecuteMessage has no keyspace; the metadata id is what the PREPARED result of that version gave
-    {[id |-> A_id[var], rmid |-> IF HasResultMetadataId(pv) THEN Some(A_rmid[var]) ELSE None]
+    {[id |-> At(A_id, var), rmid |-> IF HasResultMetadataId(pv) THEN Some(At(A_rmid, var)) ELSE None]
         @@ Params(var, Some(A_values[iv]), sk, is, ip, ips, it, 0, ic) :
-        iv \in (IF Small THEN {1, 5} ELSE 1..5), sk \in BOOLEAN, is \in Idx, ip \in Idx, ips \in Idx, it \in Idx, ic \in Idx}
+        iv \in (IF Small THEN {1, 5} ELSE 1..5), sk \in BOOLEAN,
+        is \in Ix(A_serial), ip \in Ix(A_page), ips \in Ix(A_pstate), it \in Ix(A_ts), ic \in Ix(A_cont)}
 
-PrepareCases(var) == {[query |-> A_query[var], ks |-> Pick(A_ks, ik, var)] : ik \in Idx}
+PrepareCases(var) == {[query |-> At(A_query, var), ks |-> Pick(A_ks, ik, var)] : ik \in Ix(A_ks)}
 
 \* BATCH: <query_i> = <kind><string_or_id><n><value_1>...<value_n>
 BQ(prep, q, params) == [prepared |-> prep, q |-> q, params |-> params]
@@ -105,9 +112,10 @@ A_batch == << <<>>,
               << BQ(TRUE, A_id[1], <<V(<<0, 0, 0, 5>>), Null>>) >>,
               << BQ(FALSE, A_query[2], <<V(<<97>>)>>), BQ(TRUE, A_id[2], <<Unset, V(<<>>)>>) >> >>
 BatchCases(var) ==
-    {[btype |-> bt, queries |-> A_batch[iq], cl |-> A_cl[var],
+    {[btype |-> bt, queries |-> A_batch[iq], cl |-> At(A_cl, var),
       serial |-> Pick(A_serial, is, var), ts |-> Pick(A_ts, it, var), ks |-> Pick(A_ks, ik, var)] :
-        bt \in (IF Small THEN {var - 1, 2} ELSE 0..2), iq \in (IF Small THEN {3, 4} ELSE 1..4), is \in Idx, it \in Idx, ik \in Idx}
+        bt \in (IF Small THEN {var % 2, 2} ELSE 0..2), iq \in (IF Small THEN {3, 4} ELSE 1..4),
+        is \in Ix(A_serial), it \in Ix(A_ts), ik \in Ix(A_ks)}
 
 S_TOPOLOGY == <<84, 79, 80, 79, 76, 79, 71, 89, 95, 67, 72, 65, 78, 71, 69>>      \* "TOPOLOGY_CHANGE"
 S_STATUS   == <<83, 84, 65, 84, 85, 83, 95, 67, 72, 65, 78, 71, 69>>              \* "STATUS_CHANGE"
@@ -120,14 +128,14 @@ S_NO_COMPACT  == <<78, 79, 95, 67, 79, 77, 80, 65, 67, 84>>                     
 S_lz4 == <<108, 122, 52>>   S_true == <<116, 114, 117, 101>>
 A_cqlv == << <<51, 46, 48, 46, 48>>, <<51, 46, 52, 46, 53>> >>                   \* "3.0.0", "3.4.5"
 StartupCases(var) ==     \* options = the STARTUP string map without CQL_VERSION (the message adds it)
-    {[cqlversion |-> A_cqlv[var], options |-> m] :
+    {[cqlversion |-> At(A_cqlv, var), options |-> m] :
         m \in {<<>>, << <<S_COMPRESSION, S_lz4>> >>, << <<S_NO_COMPACT, S_true>>, <<S_COMPRESSION, S_lz4>> >>}}
 
 S_username == <<117, 115, 101, 114, 110, 97, 109, 101>>   S_password == <<112, 97, 115, 115, 119, 111, 114, 100>>
 CredentialsCases(var) ==
-    {[creds |-> m] : m \in {<<>>, << <<S_username, A_query[var]>>, <<S_password, <<112, 119>>>> >>}}
+    {[creds |-> m] : m \in {<<>>, << <<S_username, At(A_query, var)>>, <<S_password, <<112, 119>>>> >>}}
 
-AuthResponseCases(var) == {[token |-> A_token[var]]}
+AuthResponseCases(var) == {[token |-> At(A_token, var)]}
 OptionsCases == {[none |-> TRUE]}
 \* REVISE_REQUEST (DSE continuous paging): <op_type><op_id>[<next_pages>]; 1 = cancel, 2 = backpressure
 ReviseCases(var) == {[op |-> op, id |-> IF var = 1 THEN 1 ELSE 300, next |-> IF var = 1 THEN 1 ELSE 5] : op \in {1, 2}}
@@ -155,7 +163,7 @@ Obstacles(k, pv, fo, o) ==
     (CASE k \in {"QUERY", "EXECUTE"} ->
             Why(IsSome(o.serial) /\ pv < 2, "serial_consistency", TRUE)
        \cup Why(IsSome(o.page) /\ pv < 2, "page_size", TRUE)
-       \cup Why(IsSome(o.pstate) /\ pv < 2, "paging_state", TRUE)
+       \cup Why(IsSome(o.pstate) /\ pv < 2, "paging_state", The(o.pstate) # <<>>)   \* a zero-length state asks for nothing
        \cup Why(IsSome(o.ks) /\ ~HasKeyspace(pv), "keyspace", TRUE)
        \cup Why(IsSome(o.cont) /\ ~HasContPaging(pv), "continuous_paging", TRUE)
        \cup Why(IsSome(o.ts) /\ pv < 3, "timestamp", FALSE)              \* Session: only when pv >= 3
@@ -277,7 +285,11 @@ AllParts(k, pv, fo, o) == PayloadParts(fo) \o BodyParts(k, pv, o)
 \* Skip_metadata (0x02) is an optimisation hint the property does not name: drivers may decline to ask the server
 \* to leave out metadata (stale-metadata hazard before v5, CASSANDRA-10786).  A frame without the flag is accepted
 \* for a request with skip_meta; which form the driver sends is recorded by the check, not judged.
-SkipVariants(k, o) == IF k = "EXECUTE" /\ o.skip THEN {o, [o EXCEPT !.skip = FALSE]} ELSE {o}
+\* A zero-length paging state is a legal [bytes] but no server hands one out; a driver may treat it as "no paging
+\* state".  Both forms are accepted and the one sent is recorded, not judged.
+SkipVariants(k, o) ==
+    LET a == IF k = "EXECUTE" /\ o.skip THEN {o, [o EXCEPT !.skip = FALSE]} ELSE {o} IN
+    IF k \in {"QUERY", "EXECUTE"} /\ o.pstate = Some(<<>>) THEN a \cup {[x EXCEPT !.pstate = None] : x \in a} ELSE a
 Frames(k, pv, fo, parts) ==
     UNION { UNION { { Header(pv, HeaderFlags(fo, cz, bt), fo.stream, Opcode(k), Len(IF cz THEN Comp(b) ELSE b))
                       \o (IF cz THEN Comp(b) ELSE b) : b \in Prod(parts) }
@@ -430,10 +442,11 @@ LengthConsistent ==
         /\ h.stream = c.fo.stream
 
 \* "an independent specification parser reads back exactly the fields that were requested"
-\* (Skip_metadata may be left out, never invented - see SkipVariants)
+\* (Skip_metadata and a zero-length paging state may be left out, never invented - see SkipVariants)
 SameFields(k, parsed, req) ==
     IF k \in {"QUERY", "EXECUTE"}
-    THEN [parsed EXCEPT !.skip = FALSE] = [req EXCEPT !.skip = FALSE] /\ (parsed.skip => req.skip)
+    THEN LET N(r) == [r EXCEPT !.skip = FALSE, !.pstate = IF r.pstate = Some(<<>>) THEN None ELSE r.pstate] IN
+         N(parsed) = N(req) /\ (parsed.skip => req.skip) /\ (IsSome(parsed.pstate) => parsed.pstate = req.pstate)
     ELSE parsed = req
 RoundTrip ==
     \A f \in alts : LET h == ParseFrame(c.kind, c.pv, f) IN
